@@ -2,6 +2,7 @@ package props
 
 import (
 	"fmt"
+	"go/constant"
 	"go/token"
 	"go/types"
 	"math/big"
@@ -36,7 +37,7 @@ func reportBounds(r *core.Run, p *core.Program, rule string, ba *an.BoundsAnalys
 		}
 		if ob.Proven {
 			r.OK(rule, key, where, ob.Need)
-		} else if why, ok := exceptions[core.FuncName(ob.Fn)+"|"+ob.Expr]; ok {
+		} else if why, ok := exceptions[core.FuncName(ob.Fn)+"|"+an.CanonInstr(ob.Instr)]; ok {
 			r.OK(rule, key, where, "excepted construct: "+why)
 		} else {
 			r.Fail(rule, key, where, "cannot prove "+ob.Need+" for "+ob.Expr+" (chain: "+strings.Join(ob.Chain, " -> ")+")", ob.Facts...)
@@ -88,7 +89,7 @@ func checkC09(r *core.Run) {
 	r.Count("bounds_functions", len(ba.FuncsAnalysed))
 	c09Scope(r, p)
 	c09Canon(r, p, ba)
-	c09WriterRanges(r, p)
+	c09WriterRanges(r, p, "R-C09-canon")
 	c09Workers(r, p, "R-C09-bounds")
 	// the block weight accumulated while decoding (shared with C05)
 	c05Weight(r, p, "R-C09-bounds")
@@ -116,6 +117,8 @@ func c09Scope(r *core.Run, p *core.Program) {
 			continue
 		}
 		r.OK(rule, rootName+"/recover", p.Pos(root.Pos()), "deferred recover present")
+		why := recoverRejects(root, 0)
+		r.Check(why == "", rule, rootName+"/recover-rejects", p.Pos(root.Pos()), "a recovered panic resets the verdict to the rejecting value", "a truncated input that panics is not refused: "+why)
 		for _, c := range an.Calls(root, false) {
 			cal := an.StaticCallee(c)
 			if cal == nil || !core.InModule(cal) || seen[cal] || cal.Blocks == nil {
@@ -436,8 +439,7 @@ func c09Workers(r *core.Run, p *core.Program, rule string) {
 // switch to the 3-, 5- and 9-byte form at exactly 0xfd, 0x10000 and 0x100000000, and each range carries its
 // own marker byte.  Read as a chain of "value < K" tests from the function entry; "<=", ">" and ">=" forms
 // are normalised, so a rewrite with the same boundaries stays silent.
-func c09WriterRanges(r *core.Run, p *core.Program) {
-	const rule = "R-C09-canon"
+func c09WriterRanges(r *core.Run, p *core.Program, rule string) {
 	full := []string{"253", "65536", "4294967296"}
 	for _, w := range []struct {
 		name  string
@@ -565,4 +567,85 @@ func c09MarkerFlag(r *core.Run, p *core.Program) {
 		sigs = append(sigs, strings.ReplaceAll(an.TagList(tests), base, "o"))
 	}
 	r.Check(len(sigs) == 2 && sigs[0] == sigs[1], rule, "marker-flag/twins-agree", "-", "NewTx and TxSize apply the same marker/flag test", "NewTx and TxSize disagree on the marker/flag test: "+strings.Join(sigs, " vs "))
+}
+
+// recoverRejects: a decoder that turns a run-time panic (short buffer) into a rejection does so in a deferred
+// function: on the path where recover() returned non-nil, the decoder's verdict result (a named result,
+// bound into the deferred function) is set to its rejecting zero value - otherwise the partial value
+// computed before the panic is returned as if decoding had succeeded.  Returns "" when that holds.
+func recoverRejects(fn *ssa.Function, result int) string {
+	if fn.Recover == nil {
+		return "no recover block"
+	}
+	ret, ok := fn.Recover.Instrs[len(fn.Recover.Instrs)-1].(*ssa.Return)
+	if !ok || result >= len(ret.Results) {
+		return "after a recovered panic the function does not return its named results"
+	}
+	ld, ok := ret.Results[result].(*ssa.UnOp)
+	if !ok {
+		return "the verdict is not a named result"
+	}
+	cell, ok := ld.X.(*ssa.Alloc)
+	if !ok {
+		return "the verdict is not a named result"
+	}
+	problem := "no deferred function recovers"
+	an.Instrs(fn, func(i ssa.Instruction) {
+		d, ok := i.(*ssa.Defer)
+		if !ok {
+			return
+		}
+		mc, _ := d.Call.Value.(*ssa.MakeClosure)
+		cl, _ := d.Call.Value.(*ssa.Function)
+		if mc != nil {
+			cl = mc.Fn.(*ssa.Function)
+		}
+		if cl == nil {
+			return
+		}
+		var rec *ssa.Call
+		an.Instrs(cl, func(j ssa.Instruction) {
+			if c, ok := j.(*ssa.Call); ok {
+				if b, ok := c.Call.Value.(*ssa.Builtin); ok && b.Name() == "recover" {
+					rec = c
+				}
+			}
+		})
+		if rec == nil {
+			return
+		}
+		var fv *ssa.FreeVar
+		if mc != nil {
+			for k, b := range mc.Bindings {
+				if b == ssa.Value(cell) && k < len(cl.FreeVars) {
+					fv = cl.FreeVars[k]
+				}
+			}
+		}
+		if fv == nil {
+			problem = "the deferred function that recovers does not touch the verdict"
+			return
+		}
+		problem = "after a recovered panic the verdict keeps the value computed so far"
+		an.Instrs(cl, func(j ssa.Instruction) {
+			st, ok := j.(*ssa.Store)
+			if !ok || st.Addr != ssa.Value(fv) {
+				return
+			}
+			c, isC := st.Val.(*ssa.Const)
+			if !isC || !(c.Value == nil || (c.Value.Kind() == constant.Int && constant.Sign(c.Value) == 0) || (c.Value.Kind() == constant.Bool && !constant.BoolVal(c.Value))) {
+				return
+			}
+			for _, dc := range an.DomConds(st.Block()) {
+				x, y, rel, ok := dc.Cmp()
+				if !ok {
+					continue
+				}
+				if cy, isC := y.(*ssa.Const); isC && cy.Value == nil && rel == token.NEQ && (x == ssa.Value(rec) || an.DependsOn(x, rec)) {
+					problem = ""
+				}
+			}
+		})
+	})
+	return problem
 }
